@@ -5,16 +5,26 @@ CHECK = {
                  "(b) the set-up argument matrix on descriptors with a history (zeroed / 0xff-filled / nulled / in use with every (used, offset)) "
                  "followed by every operation once on the re-used descriptor (differential against a fresh descriptor), "
                  "(c) bounded-exhaustive boundary families on buffers whose size straddles 2^8, 2^16 (exact heap blocks; thorough also 2^7, 2^15) "
-                 "and 2^31, 2^32 (lazily backed 4 GiB mapping, states installed with byte_buffer_set)",
+                 "and 2^31, 2^32 (lazily backed 4 GiB mapping, states installed with byte_buffer_set), "
+                 "(d) every operation of the alphabet called with its buffer argument given as an expression with a side effect (cursor function over three buffers of the same geometry), "
+                 "(e) add / consume / consume_at_most whose source / destination lies in the same object as the buffer's memory, directly in front of or behind it (gap 0 or 1 octet, never inside it)",
     "rule": "explicit-state search: every operation of the alphabet applied to every reachable (size,used,offset,image) state; a case is one transition; "
             "non-trivial = everything but reset of an already empty buffer; far-operand cases: one add/consume/consume_at_most with a far length on a reached state; "
             "set-up cases: one set/use/space call on a descriptor with the stated history (an accepted one is followed by every operation of the alphabet, each from a copy of the resulting descriptor); "
-            "medium/big cases: byte_buffer_set to a boundary state, then one operation",
+            "medium/big cases: byte_buffer_set to a boundary state, then one operation; "
+            "expr cases: every (used, offset) of sizes 1..3 (thorough 1..5) x every operation of the alphabet, the buffer under test compared with the model and the two buffers behind the cursor compared with their state before; "
+            "adjacent cases: every (used, offset) of the small sizes x add / consume / consume_at_most with every length the operation has to serve (at-most: also one more than is unread) x operand in front / behind x gap 0 / 1",
     "assumptions": ["octet alphabet {00,a1,b2}; buffer sizes up to the stated bound (small-scope), plus the boundary families named in the bound (values next to 2^7, 2^8, 2^15, 2^16, 2^31, 2^32, 2^63, 2^64)",
                     "ASan red zones around exact-size heap blocks observe out-of-bounds accesses (small and medium scope); on the 4 GiB mapping octets are compared in windows of 96 octets around 0, 2^16, 2^31, 2^32 instead",
                     "consume_at_most(0) on an empty buffer: the statement does not decide between failing and delivering zero octets; both are accepted, the buffer must be unchanged",
-                    "a call whose operand exceeds size+1 is handed source/destination blocks smaller than the operand says: add/consume must fail without change, so they are never read or written; consume_at_most gets room for everything that is unread plus 8 octets",
-                    "'fails without change' / 'refuses' is read as: negative return, all four descriptor fields and the whole memory image unchanged (HARNESS-GUIDE oracle discipline); after an accepted operation only the filled region [0,used) is compared (the statement leaves free room open, except for clear)",
+                    "an add whose length exceeds size+1 is handed a source block smaller than the length says: it has to fail without change and has no octet to append, so the block is not read",
+                    "the destination of a consume / consume_at_most always has the length the call states (an implementation may pad or clear it within that length): an exact-size heap block up to 2^20 octets, beyond that 16 GiB of address space of which the first 256 KiB are accessible -- a call that touches the rest is abandoned as undecided (outcome far-undecided, run marked non-exhaustive, after 16 such calls of one kind the remaining ones are not made), never reported; consume lengths above 2^34 (2^48, 2^63, 2^64-k) cannot be backed by memory and are not generated: a wrap of offset+length that needs such a length is outside the space",
+                    "'fails without change' (add, consume, at-most on an empty buffer) is read as: negative return, all four descriptor fields and the whole memory image unchanged; after an accepted operation only the filled region [0,used) is compared (the statement leaves free room open, except for clear)",
+                    "'set-up refuses ...' (the statement does not say 'without change' here): negative return, both memory blocks untouched, and the descriptor either as it was or a consistent descriptor that describes no memory (data == NULL or size == 0, with offset <= used <= size); a refused set-up that leaves a changed descriptor still describing memory is a violation",
+                    "the statement promises no range of buffer sizes: a set-up with valid arguments that is refused at sizes >= 2^31-1 (large-scope family only) is a cap (outcome big-unsupported, run marked non-exhaustive), what it leaves behind is checked like any refused set-up",
+                    "byte_buffer_avail / byte_buffer_rest do not occur in the statement: their results are logged in replays, not demanded",
+                    "expr family: the operations are functions of the public header, so a call whose buffer argument has a side effect operates on the one buffer the expression yields once; only the buffer argument is varied",
+                    "adjacent family: operands inside the buffer's own memory (repeating its newest octets, consuming into its free room) are not generated -- an implementation may refuse operands that alias the buffer",
                     "the descriptor is a flat public struct (BYTE_BUFFER_INIT initialises it member by member): the re-use family copies an accepted descriptor and re-points `data` at an exact-size block per operation",
                     "on the 4 GiB mapping only operations that move at most 8 octets or have to refuse are run (no clear; rewind only with at most 8 unread octets and offset > 0 or used <= 8); only the pages under the compared windows are accessible: a call that touches any other page of the mapping (work in proportion to the buffer size, which the statement does not forbid) is abandoned as undecided (outcome big-undecided, run marked non-exhaustive), never reported",
                     "the image an operation starts from is the one byte_buffer_set left: set-up must keep the octets it is told are filled, what it does to the free room is open",
@@ -25,6 +35,7 @@ CHECK = {
         "require_outcomes": {"any": ["rewind-moves", "add-refused", "consume-refused", "atmost-short", "set-refused",
                                      "far-add-refused", "far-consume-refused", "far-atmost-short", "far-atmost-empty",
                                      "reuse-set-refused", "reuse-set-ok", "dirty-set-refused", "dirty-set-ok",
-                                     "medium-add-ok", "medium-add-refused", "medium-consume-ok", "medium-consume-refused", "medium-rewind"]},
+                                     "medium-add-ok", "medium-add-refused", "medium-consume-ok", "medium-consume-refused", "medium-rewind",
+                                     "expr-argument", "adjacent-add", "adjacent-consume", "adjacent-atmost"]},
     }],
 }
